@@ -3,7 +3,7 @@
 # Rebuilds the check binary against /repo's current working tree, then runs it.
 set -u
 cd /verif
-export GOFLAGS=-mod=mod GOPROXY=off GOSUMDB=off GOTOOLCHAIN=local GOCACHE=/verif/.gocache CGO_ENABLED=0
+export GOFLAGS=-mod=mod GOPROXY=off GOSUMDB=off GOTOOLCHAIN=local GOCACHE=/verif/.gocache CGO_ENABLED=0 GOGC=400
 id="$1"; mode="${2:-quick}"; shift; shift || true
 lc=$(echo "$id" | tr 'A-Z' 'a-z')
 mkdir -p .work/bin
